@@ -14,6 +14,11 @@ CHECKS = {
             "Every message value generated (boundary grid of sizes/strings, then seeded random) is pushed through the repository's own ser/deser pair and compared; values inside the domain must not raise, values outside must raise or come back unchanged. Held = on all values generated, not on the whole domain.",
             "Trusts pickle/orjson/pydantic/libzmq themselves; inside-domain for sizes is 0..2^48; datagram size limit (1024 B) is transport, not encoding.",
             "DESIGN.md section 3 C17"),
+    "C19": ("E9-builder", "exploration",
+            "runtime oracle on generated builder programs: independent well-formedness classifier + value-binding model + persistence digests re-checked after every builder call",
+            "Each generated builder program (exec-synthesised callables, with_values, with_node, with_edge with existing/dangling endpoints) runs on the real builders; build() must return an Either, reject exactly what the independent classifier says dangles or conflicts, and an accepted job is re-checked edge by edge; earlier builders and jobs are digest-checked for mutation after every call.",
+            "Annotations restricted to builtins/absent; Any-vs-concrete pairs accepted either way; compatibility = issubclass.",
+            "DESIGN.md section 3 C19"),
 }
 
 NOT_YET = {}
@@ -21,6 +26,8 @@ NOT_YET = {}
 ENGINES = [
     {"name": "E7-codec", "path": "vlib/checks/c17.py", "serves_properties": ["C17"],
      "kind_free_text": "generated message values through the real encoders, offline comparison"},
+    {"name": "E9-builder", "path": "vlib/checks/c19.py", "serves_properties": ["C19"],
+     "kind_free_text": "generated builder programs against an independent well-formedness oracle"},
 ]
 
 
